@@ -217,8 +217,10 @@ class Runner:
 
     def snapshot(self, ci):
         c = self.W.clients[ci]
-        return (len(c.events), len(c.boss._D._pending_inbound_dilate_messages), len(LOGGED), c.boss._next_rx_phase,
-                c.boss._next_rx_dilate_seqnum)
+        # the numbers of the next application message / dilation payload are what was handed over so far (observed at the
+        # application and at the Dilator, not read from Boss' cursors, which a changed implementation may not have)
+        ndil = len(c.boss._D._pending_inbound_dilate_messages)
+        return (len(c.events), ndil, len(LOGGED), sum(1 for n, _ in c.events if n == "message"), ndil)
 
     def version_token(self, ci, app_versions_json):
         """the sealed version plaintext a `versions` event corresponds to (by its app_versions)"""
@@ -1113,11 +1115,45 @@ def long_case(rng):
     return dict(kind="run", seed=rng.randrange(10**6), honest=False, script=s)
 
 
+def crossstream_case(rng):
+    """the two in-order inbound streams (application phases, dilation seqnums) and the two clients of the process next
+    to each other: a key holder's dilate-k (k >= 1) reaches the victim before dilate-0 / an application phase n >= 1 before
+    phase 0, the other stream then advances past that number; or one client has an early phase parked while the other
+    client's cursor reaches the same number"""
+    v = rng.randrange(2)
+    o = 1 - v
+    s = [["open", 0], ["open", 1], ["code", 0], ["code", 1]]
+    kind = rng.choice(["dilate-early", "dilate-early", "phase-early", "other-client"])
+    if kind == "dilate-early":
+        k = rng.choice([1, 1, 2])
+        s += [["pump", 12], ["keyholder", v, 0, "dilate-%d" % k, "d%dd%d" % (k, k)], ["s2c", v]]
+        s += [["send", o, "%02x%02x" % (0xa0 + i, rng.randrange(256))] for i in range(k + rng.choice([0, 1]))]
+        s += [["pump", 6]]
+        if rng.random() < 0.5:
+            s += [["keyholder", v, 0, "dilate-0", "d0d0"], ["pump", 2]]
+        s += [["send", o, "afaf"], ["pump", 4]]
+    elif kind == "phase-early":
+        n = rng.choice([2, 3])
+        s += [["hold", v, "0"]] + [["send", o, "%02x%02x" % (0xb0 + i, rng.randrange(256))] for i in range(n)] + [["pump", 16]]
+        s += [["keyholder", v, 0, "dilate-0", "d0d0"], ["s2c", v]]
+        if rng.random() < 0.5:
+            s += [["keyholder", v, 0, "dilate-1", "d1d1"], ["s2c", v]]
+        s += [["release", v, "fifo", None], ["pump", 4]]
+    else:
+        n = rng.choice([2, 3])
+        s += [["hold", v, "0"]] + [["send", o, "%02x%02x" % (0xc0 + i, rng.randrange(256))] for i in range(n)]
+        s += [["send", v, "%02x%02x" % (0xd0 + i, rng.randrange(256))] for i in range(n)] + [["pump", 20]]
+        s += [["release", v, "fifo", None], ["pump", 4]]
+    return dict(kind="run", seed=rng.randrange(10**6), honest=False, script=s)
+
+
 def gen_case0(rng, ntamper=None):
     r0 = rng.random()
     if r0 < 0.04:
         return long_case(rng)
-    if r0 < 0.19:
+    if r0 < 0.10:
+        return crossstream_case(rng)
+    if r0 < 0.24:
         return prepake_case(rng)
     ka, kb = rng.randrange(0, 7), rng.randrange(0, 7)
     if rng.random() < 0.5:
@@ -1262,6 +1298,22 @@ def corpus():
             out.append(dict(kind="run", seed=14, honest=False,
                             script=H + [["hold", v, "0"], ["send", o, "a0"], ["pump", 14], ["keyholder", v, 0, "dilate-10", "d10d"], ["s2c", v],
                                         ["shift", v, o, "dilate-10", kk], ["s2c", v], ["release", v, "fifo", None], ["settle"]]))
+    # the two in-order streams side by side: a key holder's dilate-1 before dilate-0, then application phase 0 (phase 1 not
+    # yet sent); application phase 1 parked (phase 0 withheld), then dilate-0; one client's parked phase 1 while the other
+    # client's cursor passes 1 (both clients live in one process)
+    for v in (0, 1):
+        o = 1 - v
+        for dfr in ([v], [o]):
+            out.append(dict(kind="run", seed=15, honest=False, deferred=dfr,
+                            script=H + [["pump", 12], ["keyholder", v, 0, "dilate-1", "d1d1"], ["s2c", v], ["send", o, "a0a0"], ["pump", 6],
+                                        ["send", o, "a1a1"], ["pump", 4], ["keyholder", v, 0, "dilate-0", "d0d0"], ["settle"]]))
+            out.append(dict(kind="run", seed=15, honest=False, deferred=dfr,
+                            script=H + [["hold", v, "0"], ["send", o, "b0b0"], ["send", o, "b1b1"], ["pump", 16],
+                                        ["keyholder", v, 0, "dilate-0", "d0d0"], ["s2c", v], ["keyholder", v, 0, "dilate-1", "d1d1"], ["s2c", v],
+                                        ["release", v, "fifo", None], ["settle"]]))
+            out.append(dict(kind="run", seed=15, honest=False, deferred=dfr,
+                            script=H + [["hold", v, "0"], ["send", o, "c0c0"], ["send", o, "c1c1"], ["send", v, "d0d0"], ["send", v, "d1d1"],
+                                        ["pump", 20], ["release", v, "fifo", None], ["settle"]]))
     # Deferred API: pipelined get_message() with >= 2 phases already queued / requests before the messages / chained from
     # inside the callback; the peer's version overtaken by its first numbered phase (server delay), then delivered
     for v in (0, 1):
@@ -1296,7 +1348,7 @@ def corpus():
 
 def cases(rng, tier):
     out = corpus()
-    n = 290 if tier == "quick" else 3900
+    n = 280 if tier == "quick" else 3800
     for _ in range(n):
         out.append(gen_case(rng))
     if tier == "thorough":
